@@ -43,6 +43,8 @@ def run(ck):
     ck.rule("C10.R2c", "every valueset! field-form arm is exercised by a fixture function", floor=20)
     ck.rule("C10.R4", "impl Value for T calls exactly the visitor method for its type", floor=30)
     ck.rule("C10.R5", "ValueSet::record visits a pair iff same callsite and Some; Span::record ignores undeclared", floor=3)
+    ck.rule("C10.R10", "record_all!: the span's field set is only known at run time, so each value's key is looked up by the name written at the call site", floor=1)
+    ck.rule("C10.R11", "with the `log` feature a field expression outside the enabled branch is evaluated only where a log record can be emitted (no collector ever installed, level <= log::max_level())", floor=150)
     ck.rule("C10.R9", "an enabled emission is not skipped by a stale `never`: the interest a first hit caches is the fold over the registered dispatchers, computed under the registry lock (as C04.R1)", floor=3)
     ck.rule("C10.R8", "`a collector has been installed` is sticky (as C18.R5): disabled callsites evaluate nothing also with the log feature", floor=3)
     ck.rule("C10.R7", "collector wrappers forward register_callsite/enabled and the records themselves (as C09.R1/R2)", floor=20)
@@ -66,6 +68,8 @@ def run(ck):
         else:
             ck.bad("C10.R2c", "valueset! arm uncovered", "tracing/src/macros.rs:%d" % line,
                    "no fixture function expands the valueset! arm that builds its (key, value) pair at line %d: extend fixtures/gen_fixtures.py" % line)
+    r10(ck, FX)
+    r11(ck)
     F = Facts("default")
     ck.configs.append("default")
     r4(ck, F)
@@ -85,6 +89,91 @@ def run(ck):
     from rules import C09
     C09.wrapper_rules(ck, F, rids={"R0": "C10.R7", "R1": "C10.R7", "R2": "C10.R7", "R3": "C10.R7"}, traits=["tracing_core::collect::Collect"],
                       only={"register_callsite", "enabled", "event_enabled", "event", "new_span", "record"})
+
+
+def r10(ck, FX):
+    """span!/event! build FieldSet and value array from one token list, so pairing the i-th value with the i-th
+    Iter::next is exact (R2). record_all! pairs the values with the field set of whatever span it is handed: the only
+    sound key for `name = value` there is a lookup of `name` in that set (FieldSet::field / Span::field) -- a key taken
+    positionally from the iterator attaches the value to whichever field happens to be declared at that position."""
+    b = FX.body("fx_macros::manual::record_all_subset")
+    key = "record_all!: each value is attached to the field its key names"
+    if not ck.anchor("C10.R10", "fixture record_all_subset", b):
+        return
+    vs = [(bb, t) for bb, t in b.calls() if t["callee"].get("path") == FIELD + "FieldSet::value_set"]
+    if len(vs) != 1:
+        ck.bad("C10.R10", key, where(b.raw["sp"]), "%d value_set calls in the record_all! fixture" % len(vs), fn=b.path)
+        return
+    arr = b.origin(vs[0][1]["argv"][1])
+    problems = []
+    pairs = 0
+    if arr[0] != "agg":
+        problems.append("the value array is not a literal array")
+    else:
+        for op in arr[1]["ops"]:
+            tup = b.origin(op)
+            if tup[0] != "agg" or len(tup[1]["ops"]) != 2:
+                problems.append("an entry is not a (key, value) tuple")
+                continue
+            pairs += 1
+            fo = b.origin(tup[1]["ops"][0])
+            # peel Option::expect / unwrap / `?`-like adapters
+            seen = 0
+            while fo[0] == "call" and fo[2]["callee"].get("method") in ("expect", "unwrap", "unwrap_or_else", "as_ref") and seen < 4:
+                fo = b.origin(fo[2]["argv"][0]); seen += 1
+            if fo[0] == "call" and fo[2]["callee"].get("method") == "field":
+                nm = [b.origin(a) for a in fo[2]["argv"]]
+                if not any(x[0] == "const" and x[1].get("str") == "second" for x in nm):
+                    problems.append("the key is looked up under another name than the one written (`second`)")
+            elif fo[0] == "call" and fo[2]["callee"].get("method") == "next":
+                problems.append("the key of `second = ..` is the next field of the span's FieldSet iterator (position 0), not the field named `second`")
+            else:
+                problems.append("the key of `second = ..` does not come from a by-name lookup (%s)" % fo[0])
+    if pairs != 1 and not problems:
+        problems.append("%d pairs built for one `name = value`" % pairs)
+    if problems:
+        ck.bad("C10.R10", key, "tracing/src/macros.rs (record_all!)", "; ".join(problems) + " (fixture fx_macros::manual::record_all_subset)", fn=b.path)
+    else:
+        ck.ok("C10.R10", key, fn=b.path)
+
+
+def r11(ck):
+    """`log` feature: the expansions evaluate field expressions a second time, for the `log` record made when no
+    collector takes the span/event. "Not at all when it is disabled" then needs every such evaluation to sit behind the
+    tests that decide whether a log record can exist: `!dispatch::has_been_set()` and `level <= log::max_level()`
+    (the default max level is Off: without a logger nothing may be evaluated)."""
+    from rulekit.query import guards_of
+    FX = Facts("fx_log")
+    ck.configs.append("fx_log")
+    lv = {"TRACE": "Trace", "DEBUG": "Debug", "INFO": "Info", "WARN": "Warn", "ERROR": "Error"}
+    for fname, exp in sorted(FX.expect.items()):
+        if exp["kind"] not in ("span", "event"):
+            continue
+        b = FX.body("fx_macros_log::macros_gen::" + fname)
+        if b is None:
+            continue
+        calls = marker_calls(FX, b)
+        lazy = [m for m in exp["markers"] if m and m not in exp.get("eager", [])] + exp["msg_markers"]
+        problems = []
+        nsites = 0
+        for m in lazy:
+            for x, bb in calls.get(m, []):
+                g, _ = guards_of(x, bb)
+                gt = dict(g)
+                if x is not b or any(t.startswith("is_enabled(") and v != 0 for t, v in g):
+                    continue           # the enabled branch (events: inside the dispatch closure) -- R1's subject
+                nsites += 1
+                if gt.get("has_been_set()") != 0:
+                    problems.append("%s is evaluated for the log record although a collector may be installed" % m)
+                want = lv[exp["level"]]
+                if not any((t.startswith("le(Level::%s{}, max_level())" % want) or t.startswith("ge(max_level(), Level::%s{})" % want)) and v != 0 for t, v in g):
+                    problems.append("%s is evaluated for the log record without `%s <= log::max_level()`: with no logger (max level Off) a disabled %s still runs its field expressions" % (m, want, exp["kind"]))
+        key = "%s [%s!, log]" % (fname, exp["macro"])
+        if problems:
+            ck.bad("C10.R11", "%s! (log feature): fields evaluated where no record can be emitted" % exp["macro"], where(b.raw["sp"]),
+                   "; ".join(sorted(set(problems))[:3]) + " (fixture %s)" % fname, fn=b.path)
+        else:
+            ck.ok("C10.R11", key, fn=b.path, nontrivial=nsites > 0)
 
 
 def marker_calls(FX, body):
